@@ -11,6 +11,9 @@ slots of input objects were rebound (identity level), which slots of the writer'
 
 Model side (coq/model/Store.v, Iso.v, extracted): the same history in the store model -> predicted snapshot of every
 set after every op, error exit, span token counts, open_span, copy footprint, deepcopy count.
+Wave 7: the same histories with the writers executed as HEAP PROGRAMS (coq/model/HeapProg.v, request 902: statements that
+load from / store into any object, instance registers, rendering state machines) - compared with the real heap and with the
+store model; request 903 re-evaluates the ownership and assigned-before-read analyses (see heap_program_stream).
 Property oracle: Coq ok_c09 (coq/spec/SpecIso.v) on the implementation's digests: no write changes any set (also when
 it raises); equal (writer class, options, set snapshot) => equal bytes.  Across processes: the same histories under
 PYTHONHASHSEED 0,1,2,3,17,4242 must give identical outputs.
